@@ -12,6 +12,7 @@ func init() {
 			c.guard("RW.DISPATCH", r.ruleCover)
 			c.guard("RW.BRANCHCTX", r.ruleBranchCtx)
 			c.guard("RW.SIG", r.ruleSig)
+			c.guard("RW.ORACLE", r.ruleOracles)
 			// C12 answers for the unsupported forms: labelled break/continue, goto, fallthrough out of a yielding case
 			c.keep(func(o Obligation) bool {
 				if o.Rule == "RW.BRANCHCTX" {
@@ -218,6 +219,7 @@ func init() {
 			c.guard("RW.BRANCHCTX", r.ruleBranchCtx)
 			c.guard("RW.TMPL.ITERTYPE", r.ruleIterType)
 			c.guard("RW.NODECL", func() { ruleRwNoDecl(c) })
+			c.guard("RW.ORACLE", r.ruleOracles)
 			// C13 answers for code that is not a generator: ordinary closures nested in generators, non-iterator index expressions
 			c.keep(func(o Obligation) bool {
 				switch o.Rule {
